@@ -40,6 +40,9 @@ type ChildPlan struct {
 	Steps       []Op                                   `json:"steps"`
 	Crash       *CrashPoint                            `json:"crash,omitempty"`
 	Count       bool                                   `json:"count,omitempty"`
+	// ScanKeys: before the first step, read these <collection index, key> pairs and report the CAS of
+	// every document or tombstone found (in the READY line): what an earlier process left on disk
+	ScanKeys [][2]string `json:"scanKeys,omitempty"`
 	Clock       *ClockPlan                             `json:"clock,omitempty"`
 	Model       *Model                                 `json:"model,omitempty"`
 	DDocs       map[int]map[string]map[string]ViewSpec `json:"ddocs,omitempty"`
@@ -113,7 +116,18 @@ func ChildMain(planPath string) {
 	run := NewRun(w, "child")
 	run.DDocs = plan.DDocs
 	uuid, _ := w.Handles[0].UUID()
-	emit("READY", Ack{I: -1, UUID: uuid, Model: w.Model})
+	ready := Ack{I: -1, UUID: uuid, Model: w.Model}
+	for _, ck := range plan.ScanKeys {
+		ci := 0
+		fmt.Sscanf(ck[0], "%d", &ci)
+		if ci < 0 || ci >= len(w.Cfg.Colls) {
+			continue
+		}
+		if st, _ := Observe(w.Coll(0, ci), ck[1], nil); st.Present {
+			ready.Cas = append(ready.Cas, st.Cas)
+		}
+	}
+	emit("READY", ready)
 	for i, op := range plan.Steps {
 		before := len(run.Devs)
 		casBefore := w.Model.MaxIssued
